@@ -171,6 +171,8 @@ CARRIERS = {
     "general": lambda T: T,
     "passthrough": lambda T: T,
     "single": lambda T: '  ask other\nbot answer other\n  "%s"' % T,
+    # multi-step generation: the LLM writes the message text inline, under a bot intent that has no configured message
+    "steps": lambda T: 'bot inform novelty\n  "%s"' % T,
     "value": lambda T: '"%s"' % T,
     "v2value": lambda T: '"%s"' % T,
     "v2cont": lambda T: 'bot intent: bot answer\nbot action: bot say "%s"' % T,
